@@ -5,7 +5,7 @@ import vlib
 PROP_FILES = ['Properties/C08']
 EXTRA_OBLIGATION_FILES = ['Proofs/AtomReplay']
 TRUSTED = [
-    'atomic steps of the hand-written model as GENERATED obligations (Proofs/AtomReplay.v, re-proved on every run about coq/Gen/Atomicity.v; in a private re-generated copy under VERIF_EXTRA_OVERLAY): tools/lockscan (go/ast, syntactic types) is trusted to list, per function of internal/{server,multiplex,common,client}, every field access / call / sync/atomic operation with the critical sections (Lock..Unlock / RLock..RUnlock / deferred unlock, mutex identity by name) it lies in, every sync.Pool.Put with the later mentions of the object, and every variable a go statement shares with its spawner (anything it cannot resolve is in atomicity_errors, which must be empty); it does not follow calls (a region is what one function writes between Lock and Unlock), does no alias analysis, treats callbacks as running with no lock held, and counts call sites, not executions (a loop around one call site is invisible)',
+    'atomic steps of the hand-written model as GENERATED obligations (Proofs/AtomReplay.v, re-proved on every run about coq/Gen/Atomicity.v; in a private re-generated copy under VERIF_EXTRA_OVERLAY): tools/lockscan (go/ast, syntactic types) is trusted to list, per function of internal/{server,multiplex,common,client}, every field access / call / sync/atomic operation with the critical sections (Lock..Unlock / RLock..RUnlock / deferred unlock, mutex identity by name) it lies in, every sync.Pool.Put with the later mentions of the object, and every variable a go statement shares with its spawner (anything it cannot resolve is in atomicity_errors, which must be empty); it does not follow calls (a region is what one function writes between Lock and Unlock), does no alias analysis, treats callbacks as running with no lock held, and counts call sites, not executions (a loop around one call site is invisible); who removes entries (AtomReplay/AtomPanel/AtomMux): the scanner distinguishes element stores (w), delete/clear (del), assignment of the whole field (set), address-of (addr) and the map being handed on as a value (val); a delete on a local map is recorded under the name of that local',
     'Coq 8.16.1 kernel incl. vm_compute (no native_compute); theorems of Properties/C08.v: Closed under the global context',
     'hand-written model coq/Model/Replay.v of registerRandom / UsedRandomCleaner / the order test-and-set -> decrypt in AuthFirstPacket / the window of decryptClientInfo (Go map modelled as an association list; time in integer ns)',
     'Section hypothesis sealed_block_binds (C08_at_most_once only): one sealed 64-byte block opens under at most one ephemeral value up to bit 255, and then yields one timestamp - rests on AES-GCM (nonce = bytes 0..11 of the random, key = X25519 shared secret); idealisation (collision chance ~2^-96), probed on every run by the sweep over all 256 single-bit variants and random multi-bit variants of a valid packet (only bit 255 may still authenticate); inhabited by a toy scheme (C08_at_most_once_inhabited)',
